@@ -453,6 +453,10 @@ func checkC10(w *World) {
 			if fa, isFA := x.X.(*ssa.FieldAddr); isFA && sf.roleOf(fa.Field) == "pos" {
 				ok, why = true, "the position of the cursor being replaced"
 			}
+		case *ssa.Call:
+			if _, isPos := isMethodCall(x, "Pos"); isPos {
+				ok, why = true, "the position of the cursor being replaced (read through Pos())"
+			}
 		case *ssa.Parameter:
 			why = "the caller's counter value, un-incremented: it is also the position of the node created just before (the element itself)"
 		case *ssa.Phi:
@@ -616,6 +620,17 @@ func checkC10(w *World) {
 			// position: that of the cursor in the same slot
 			okPos := false
 			posArg := c.Call.Args[ci.PosParam]
+			if recv, isPos := isMethodCall(posArg, "Pos"); isPos {
+				// Pos() of the element at the same index of the same list
+				if sliceContains(recv, func(v ssa.Value) bool {
+					if ia2, ok := v.(*ssa.IndexAddr); ok && ia2.Index == ia.Index {
+						return true
+					}
+					return false
+				}) {
+					okPos = true
+				}
+			}
 			if pl, ok := posArg.(*ssa.UnOp); ok {
 				if pfa, ok := pl.X.(*ssa.FieldAddr); ok && sf.roleOf(pfa.Field) == "pos" {
 					// the object whose pos is read is the element at the same index of the same list
@@ -875,6 +890,7 @@ func checkC10(w *World) {
 		w.check(P, "R10.8", "every event becomes a node in "+fn.Name(), pull.Pos(), dropped == "", "a path reaches the next event at "+orNone(dropped)+" without constructing a cursor for the current one")
 	}
 	w.floor(P, "R10.8", 1)
+	w.checkNamespaceInheritance(P, sf, pullers)
 }
 
 // nodeOrCursor: t is the store's cursor interface or a pointer to its cursor struct.
